@@ -30,7 +30,48 @@ class Gen:
         self.r = rnd; self.idx = idx; self.nv = 0; self.nlab = 0; self.marks = 0
         self.structs = {'P%d' % idx: [('a', 'i32'), ('b', 'u8'), ('c', 'i64')]}
         self.sname = 'P%d' % idx
+        self.cname = 'C%d' % idx
+        self.structs[self.cname] = [('id', 'u16'), ('tag', 'u8')]     # size 3, align 2: stride 4
         self.helpers = []
+
+    def value_of(self, scope, t):
+        if isinstance(t, str):
+            return self.int_expr(scope, t, 1)
+        if t[0] == 'struct':
+            return ('struct', t[1], [(f, self.int_expr(scope, ft, 1)) for f, ft in self.structs[t[1]]])
+        if t[0] == 'opt':
+            return ('nil',) if self.r.random() < 0.25 else self.int_expr(scope, t[1], 1)
+        if t[0] == 'array':
+            return ('array', t[2], [self.value_of(scope, t[2]) for _ in range(t[1])])
+        raise ValueError(t)
+
+    def agg_scenario(self, scope):
+        """aggregates are values and `==` / `!=` compare them member by member: build x, copy it to y, change one member
+        of y (constant or symbolic position, symbolic value), observe x == y and x != y"""
+        r = self.r
+        elem = r.choice([('struct', self.cname), ('struct', self.sname), ('opt', 'i32'), ('opt', 'i64'), ('opt', 'u8'), 'u8', 'i64'])
+        shape = r.choice(['array', 'array', 'array', 'single'])
+        if shape == 'single' and isinstance(elem, str):
+            shape = 'array'
+        t = ('array', 3, elem) if shape == 'array' else elem
+        x = self.fresh('x'); y = self.fresh('y')
+        out = [('let', x, t, self.value_of(scope, t), True), ('let', y, t, ('var', x), True)]
+        target = ('var', y)
+        if shape == 'array':
+            idx = ('int', r.randint(0, 2), 'usize') if r.random() < 0.7 else ('cast', 'usize', ('bin', 'and', self.int_expr(scope, 'u8', 1), ('int', 3, 'u8')))
+            target = ('index', target, idx)
+        if isinstance(elem, tuple) and elem[0] == 'struct':
+            f, ft = r.choice(self.structs[elem[1]])
+            out.append(('assign', ('field', target, f), self.int_expr(scope, ft, 1)))
+        elif isinstance(elem, tuple) and elem[0] == 'opt':
+            out.append(('assign', target, ('nil',) if r.random() < 0.25 else self.int_expr(scope, elem[1], 1)))
+        else:
+            out.append(('assign', target, self.int_expr(scope, elem, 1)))
+        self.marks += 4
+        out.append(('if', ('bin', 'eq', ('var', x), ('var', y)), [('markc', 7000 + self.marks)], [('markc', 7001 + self.marks)]))
+        if r.random() < 0.5:
+            out.append(('if', ('bin', 'ne', ('var', y), ('var', x)), [('markc', 7002 + self.marks)], None))
+        return ('block', None, out)
 
     def fresh(self, p='v'):
         self.nv += 1
@@ -113,7 +154,9 @@ class Gen:
         scope = list(scope)
         for _ in range(n):
             c = r.random()
-            if c < 0.16:
+            if not in_defer and r.random() < 0.07:
+                out.append(self.agg_scenario(scope))
+            elif c < 0.16:
                 t = r.choice(INT_NAMES)
                 name = self.fresh()
                 mutable = r.random() < 0.6
@@ -219,6 +262,17 @@ def gen_program(rnd, idx, tier):
     g.helpers.append(h)
     entry = g.function('e%d' % idx, rnd.randint(2, 4), 2 if tier == 'quick' else 3, rnd.randint(6, 11 if tier == 'quick' else 16))
     return {'structs': g.structs, 'funcs': [h, entry], 'entry': entry['name']}
+
+
+def gen_agg_program(rnd, idx):
+    """programs dedicated to value semantics and equality of aggregates (every element type with size < stride)"""
+    g = Gen(rnd, idx)
+    params = [{'name': 'p%d' % i, 'ty': rnd.choice(['u8', 'i32', 'u16', 'i64', 'bool'])} for i in range(rnd.randint(2, 3))]
+    g.ret_ty = rnd.choice(['u8', 'i32', 'u64'])
+    scope = [(p['name'], p['ty'], False) for p in params]
+    body = [g.agg_scenario(scope) for _ in range(rnd.randint(1, 2))]
+    entry = {'name': 'e%d' % idx, 'params': params, 'ret': g.ret_ty, 'body': body, 'tail': g.int_expr(scope, g.ret_ty, 1)}
+    return {'structs': g.structs, 'funcs': [entry], 'entry': entry['name']}
 
 
 def program_src(p):
@@ -388,6 +442,7 @@ def run(chk, tier, seed):
     rnd = random.Random(seed)
     nprog = 40 if tier == 'quick' else 400
     progs = [gen_program(rnd, i, tier) for i in range(nprog)]
+    progs += [gen_agg_program(rnd, nprog + i) for i in range(12 if tier == 'quick' else 120)]
     prover = Prover(chk, timeout_ms=60000)
     stats = {'clif_paths': 0, 'ref_paths': 0, 'path_pairs': 0, 'skipped_too_many_paths': 0, 'outside_reference_semantics': 0, 'rejected': 0}
     # compile in groups; a rejected group is bisected to the offending program
